@@ -26,6 +26,7 @@ SHAPES = {
     "enum-units": ("enum", [("Left", "unit", []), ("Right", "unit", [])]),
     "enum-single": ("enum", [("Only", "tuple", [None, None])]),
     "raw-ident": ("struct", [(None, "named", ["r#type", "b"])]),
+    "raw-variants": ("enum", [("r#type", "unit", []), ("r#fn", "tuple", [None]), ("r#match", "named", ["r#in", "b"])]),
     "hostile-names": ("enum", [("A", "named", ["f", "state"]), ("B", "named", ["this", "other"])]),
 }
 
